@@ -12,6 +12,7 @@ func init() {
 	verifHarnesses["h11c"] = h11c
 	verifHarnesses["h11d"] = h11d
 	verifHarnesses["h11_witness"] = h11_witness
+	verifHarnesses["h11e"] = h11e
 }
 
 // zzRefUnescape is the reference reading of a Thrift literal body, left to
@@ -154,4 +155,70 @@ func h11d() {
 func h11_witness() {
 	h11a()
 	verifAssert(false, "reachable")
+}
+
+// h11e: integer literals through the real lexer and parser. Decimal literals
+// of n symbolic digits (optionally signed, leading zeros included) and hex
+// literals whose first digit is symbolic must come back as exactly the number
+// written; a hex literal that does not fit in int64 must be rejected.
+func h11e() {
+	n := verifParam("n")
+	kind := verifParam("kind") // 0 decimal, 1 hex with n digits (first symbolic, rest symbolic too when n <= 2, else '0')
+	var lit []byte
+	var want uint64
+	fits := true
+	if kind == 0 {
+		sign := verifChoice(3) // none, +, -
+		if sign == 1 {
+			lit = append(lit, '+')
+		} else if sign == 2 {
+			lit = append(lit, '-')
+		}
+		for i := 0; i < n; i++ {
+			c := verifByte()
+			verifAssume(verifB2I(c >= '0')&verifB2I(c <= '9') == 1)
+			lit = append(lit, c)
+			want = want*10 + uint64(c-'0')
+		}
+		if sign == 2 {
+			want = -want
+		}
+	} else {
+		lit = append(lit, '0', 'x')
+		for i := 0; i < n; i++ {
+			c := byte('0')
+			if i == 0 || n <= 2 {
+				c = verifByte()
+				isDigit := verifB2I(c >= '0') & verifB2I(c <= '9')
+				isLower := verifB2I(c >= 'a') & verifB2I(c <= 'f')
+				verifAssume(isDigit|isLower == 1)
+			}
+			lit = append(lit, c)
+			var dv uint64
+			if c <= '9' {
+				dv = uint64(c - '0')
+			} else {
+				dv = uint64(c-'a') + 10
+			}
+			want = want<<4 | dv
+		}
+		if n == 16 {
+			fits = want>>63 == 0
+		}
+	}
+	doc := append([]byte("const i64 x = "), lit...)
+	res, errs := Parse(doc)
+	verifObserveInt("nerrs", int64(len(errs)))
+	if !fits {
+		verifAssert(len(errs) > 0, "out-of-range-literal-rejected")
+		verifReached("end")
+		return
+	}
+	verifAssert(len(errs) == 0, "integer-literal-accepted")
+	c0, ok := res.Program.Definitions[0].(*ast.Constant)
+	verifAssert(ok, "is-constant")
+	iv, ok := c0.Value.(ast.ConstantInteger)
+	verifAssert(ok, "is-integer")
+	verifAssert(uint64(iv) == want, "integer-literal-value")
+	verifReached("end")
 }
